@@ -76,10 +76,33 @@ def coq_sources():
     return sorted(out)
 
 
-def forbidden_scan():
-    """grep the development for commands that would declare axioms or switch off checks"""
+def dep_closure(rel):
+    """the .v files (relative to coq/) a file transitively Requires from the LV root"""
+    seen, todo = set(), [rel]
+    while todo:
+        r = todo.pop()
+        if r in seen or not os.path.exists(os.path.join(COQ, r)):
+            continue
+        seen.add(r)
+        with open(os.path.join(COQ, r)) as f:
+            text = f.read()
+        MOD = r'[A-Za-z_]\w*(?:\.[A-Za-z_]\w*)*'
+        for m in re.finditer(r'Require\s+(?:Import\s+|Export\s+)?((?:' + MOD + r'\s+)*' + MOD + r')\s*\.(?=\s|$)', text):
+            for mod in m.group(1).split():
+                mod = mod.strip()
+                if mod.startswith('LV.'):
+                    mod = mod[3:]
+                cand = mod.replace('.', '/') + '.v'
+                if os.path.exists(os.path.join(COQ, cand)):
+                    todo.append(cand)
+    return sorted(seen)
+
+
+def forbidden_scan(only=None):
+    """grep the development (or the given files) for commands that would declare axioms or
+    switch off checks"""
     hits = []
-    for rel in coq_sources():
+    for rel in (only if only is not None else coq_sources()):
         with open(os.path.join(COQ, rel)) as f:
             text = f.read()
         # strip comments (non-nested is enough for our sources; nested handled by loop)
@@ -101,19 +124,21 @@ def forbidden_scan():
     return hits
 
 
-def coq_build(prop_vo, deps_timeout=1500):
+def coq_build(prop_vo, deps_timeout=1500, relevant_gens=None):
     """Regenerate Gen/, (re)build the property's .vo and everything it needs.
+    A generator that fails is an error only for the properties it serves (relevant_gens);
+    for the others it is noted and its previous output is left in place.
     Returns dict(ok, log, failed_file, gen_error)."""
     with Lock('coq'):
-        rc, o, e = sh(['python3', os.path.join(VERIF, 'tools', 'gen_constants.py'), REPO])
-        if rc != 0:
-            return dict(ok=False, log=o + e, failed='Gen/Constants.v', gen_error=True)
-        for extra in sorted(glob.glob(os.path.join(VERIF, 'tools', 'gen_*.py'))):
-            if extra.endswith('gen_constants.py'):
-                continue
-            rc, o, e = sh(['python3', extra, REPO])
+        notes = []
+        for gen in sorted(glob.glob(os.path.join(VERIF, 'tools', 'gen_*.py'))):
+            rc, o, e = sh(['python3', gen, REPO])
             if rc != 0:
-                return dict(ok=False, log=o + e, failed='Gen/ (%s)' % os.path.basename(extra), gen_error=True)
+                name = os.path.basename(gen)
+                if relevant_gens is None or name in relevant_gens:
+                    return dict(ok=False, log=o + e, failed='Gen/ (%s: the source no longer has the shape the translator reads)' % name,
+                                gen_error=True)
+                notes.append('%s failed (not used by this property): %s' % (name, (o + e)[-200:]))
         rc, o, e = sh(['make', '-s', '-C', VERIF, 'coqproject'])
         target = prop_vo
         rc, o, e = sh('cd %s && timeout %d make -f Makefile.coq -j%d -k %s 2>&1' % (COQ, deps_timeout, NCPU, target))
@@ -122,10 +147,10 @@ def coq_build(prop_vo, deps_timeout=1500):
         if rc != 0:
             m = re.search(r'File "\./([^"]+)", line (\d+)', log)
             failed = (m.group(1) + ':' + m.group(2)) if m else 'unknown'
-        return dict(ok=(rc == 0), log=log, failed=failed, gen_error=False)
+        return dict(ok=(rc == 0), log=log, failed=failed, gen_error=False, notes=notes)
 
 
-def coq_property(prop_id):
+def coq_property(prop_id, relevant_gens=None):
     """Recompile Properties/<id>.v unconditionally, collect theorem names, Print Assumptions."""
     rel = 'Properties/%s.v' % prop_id
     path = os.path.join(COQ, rel)
@@ -134,7 +159,7 @@ def coq_property(prop_id):
     theorems = re.findall(r'^\s*Theorem\s+(\w+)', text, flags=re.M)
     res = dict(theorems=theorems, obligations=len(theorems), discharged=0, assumptions=[], ok=False,
                checker_cmd='cd %s && make -f Makefile.coq -k %so && coqc -Q . LV %s' % (COQ, rel, rel), log='')
-    b = coq_build(rel + 'o')
+    b = coq_build(rel + 'o', relevant_gens=relevant_gens)
     res['build_log'] = b['log'][-4000:]
     if b.get('gen_error'):
         res['failed'] = b['failed']
@@ -168,7 +193,7 @@ def coq_property(prop_id):
             res['discharged'] = max(0, len(done) - 1) if re.search(r'Proof\.', text.split('\n')[ln - 1]) or True else len(done)
             res['failed'] = 'LV.Properties.%s.%s' % (prop_id, done[-1] if done else '?')
         else:
-            res['failed'] = b['failed'] or 'LV.Properties.%s' % prop_id
+            res['failed'] = ('LV.' + b['failed'].replace('/', '.').replace('.v:', ' line ')) if b.get('failed') else 'LV.Properties.%s' % prop_id
             res['discharged'] = 0
     return res
 
@@ -211,9 +236,10 @@ def build_impl(key, harness, sanitize=True, debug=None, cflags=(), ldflags=(), e
         inc.append('-I' + d)
     inc += ['-I' + REPO, '-I' + os.path.join(REPO, 'include'), '-I' + os.path.join(REPO, 'include', 'libast'),
             '-I' + os.path.join(REPO, 'src'), '-I' + os.path.join(VERIF, 'harness')]
-    base = ['gcc', '-g', opt, '-w', '-DHAVE_CONFIG_H', '-DLIBAST_VERIF', '-fno-omit-frame-pointer'] + inc + list(cflags)
+    base = ['gcc', '-g', opt, '-w', '-DHAVE_CONFIG_H', '-DLIBAST_VERIF', '-fno-omit-frame-pointer'] + inc
     if sanitize:
         base += ['-fsanitize=address,undefined', '-fno-sanitize-recover=all']
+    base += list(cflags)        # after the sanitizer flags, so a check can switch one UBSan check off
     jobs = []
     objs = []
     srcs = [os.path.join(REPO, 'src', s) for s in lib_sources() if s not in exclude]
@@ -500,11 +526,17 @@ def run_check(chk, argv):
     coq_lock = Lock('coq')
     coq_lock.__enter__()          # generation, proof step and extraction see one consistent Gen/
     try:
-        pr = coq_property(chk.id)
+        gens = getattr(chk, 'generators', None) or ['gen_constants.py', 'gen_%s.py' % chk.family, 'gen_%s.py' % chk.id.lower()]
+        pr = coq_property(chk.id, relevant_gens=gens)
         model_exe, mlog = build_model(chk.family)
     finally:
         coq_lock.__exit__()
-    forb = forbidden_scan()
+    closure = dep_closure('Properties/%s.v' % chk.id)
+    forb = forbidden_scan(closure)       # the files this property's theorems rest on
+    cov['development_files'] = closure
+    other = [h for h in forbidden_scan() if h not in forb]
+    if other:
+        cov['forbidden_elsewhere_note'] = other[:5]
     cov['obligations'] = pr['obligations']
     cov['discharged'] = pr['discharged'] if not forb else 0
     cov['checker_cmd'] = pr['checker_cmd']
@@ -516,6 +548,14 @@ def run_check(chk, argv):
            getattr(chk, 'tie_text', None) or
            'correspondence harness: gcc + ASan/UBSan build of /repo/src, harness/%s, driver/%s_main.ml, lib/vlib.py' % (chk.harness, chk.family)]
     cov['trusted_base'] = tb
+    if tier == 'thorough' and pr['ok'] and not os.environ.get('VERIF_NO_COQCHK'):
+        with Lock('coqchk'):
+            rc, o, e = sh('cd %s && timeout 1500 coqchk -o -silent -Q . LV LV.Properties.%s 2>&1' % (COQ, chk.id))
+        cov['coqchk'] = dict(cmd='coqchk -o -silent -Q . LV LV.Properties.%s' % chk.id, exit=rc, tail=(o + e)[-1500:])
+        tb.append('coqchk -o (independent checker) exit %d; axioms it lists: %s' % (rc, re.sub(r'\s+', ' ', (o + e)[-600:])))
+        if rc not in (0,):
+            pr['ok'] = False
+            pr['failed'] = 'coqchk LV.Properties.%s' % chk.id
     bad_axioms = [a for a in pr['assumptions'] if a not in ALLOWED_AXIOMS]
     proof_broken = None
     if forb:
